@@ -91,11 +91,17 @@ def gen(rng, tier, index):
     # cut into writes
     nw = rng.choice([1, 1, 2, 3, 5])
     cuts = sorted(rng.randrange(1, max(2, len(stream))) for _ in range(nw - 1)) if len(stream) > 1 else []
+    lockstep = rng.random() < 0.3
+    if lockstep:
+        # a well-behaved client: one write per request, the next one only after a pause (so that whatever
+        # state the previous exchange left behind - paused reading, timers - is what the next request meets)
+        ends = [m["end"] for m in http1.parse_requests(G.enc(stream))[0]]
+        cuts = sorted(set(e for e in ends if 0 < e < len(stream) and rng.random() < 0.8))
     writes = []
     prev = 0
     for c in cuts + [len(stream)]:
         if c > prev:
-            writes.append([rng.choice([0, 0, 1, 3, 10]), c - prev])
+            writes.append([rng.choice([3, 10, 30] if lockstep and prev else [0, 0, 1, 3, 10]), c - prev])
             prev = c
     nb = rng.randint(1, 6)
     behaviours = [rng.choice(BEHAVIOURS) for _ in range(nb)]
@@ -244,7 +250,7 @@ def run(scn, ch, log=False):
         msgs, verdict = http1.parse_requests(delivered, limits)
         # HEAD detection from what the handlers saw (independent of the reference framing)
         methods = [rec["method"].upper().encode("latin-1") for rec in obs.seen]
-        client_gone = ctr._closed or cl.lost is not None or cl.eof
+        client_gone = ctr._closed or ctr._closing or cl.lost is not None or cl.eof  # close() stops the reading side at once
         server_closed = str_._closed or str_._closing
         resps, rest = http1.split_responses(bytes(cl.received), methods=methods, closed=client_gone)
         killed = any(k.startswith("kill_") for k in loop.faults) or step_capped
@@ -326,11 +332,18 @@ def run(scn, ch, log=False):
             _tm, tv = http1.parse_requests(tailb, limits)
             # the answer to the declined upgrade and to every well-formed request of the tail: any of them may
             # legitimately have ended the connection (Connection: close, HTTP/1.0, an error answer)
-            upresps = complete_finals[len(msgs) - 1:] if 0 < len(msgs) <= len(complete_finals) else None
+            upresps = finals[len(msgs) - 1:] if 0 < len(msgs) <= len(complete_finals) else None
             said_close = upresps is None or any(
                 any(n.lower() == b"connection" and b"close" in v.lower() for n, v in r_["headers"])
-                or r_["version"] == (1, 0) or r_["status"] >= 500 for r_ in upresps)
-            if tv[0] == "REJECT" and tv[2] in SAFE and b"\r\n\r\n" in tailb and len(complete_finals) >= len(msgs) and not said_close:
+                or r_["version"] == (1, 0) or r_["status"] >= 500 or not r_["complete"] or r_["framing"] == "eof"
+                for r_ in upresps)
+            # premise of this rule: the tail mechanism is involved at all - an upgrade aiohttp knows (any other
+            # offer is simply ignored and the pipeline rules above apply) on a request without a body (with an
+            # unread body the server may close instead of reading on: lingering)
+            um = msgs[-1] if msgs else None
+            uval = b"".join(v for n, v in (um["headers"] if um else ()) if n.lower() == b"upgrade").strip().lower()
+            tail_rule = um is not None and uval in (b"websocket", b"tcp") and not um["body"] and not um.get("chunked")
+            if tail_rule and tv[0] == "REJECT" and tv[2] in SAFE and b"\r\n\r\n" in tailb[tv[1]:] and len(complete_finals) >= len(msgs) and not said_close:
                 last = finals[-1]["status"] if finals else None
                 if server_closed and (last is None or not 400 <= last < 500):
                     violate("reject_closes", f"unparsable_tail_after_declined_upgrade_without_4xx",
@@ -353,6 +366,24 @@ def run(scn, ch, log=False):
                             f"connection open, a complete request head {restb[:80]!r} was received but is neither "
                             f"answered nor being handled (responses={len(finals)}, handler calls={obs.handler_started}, "
                             f"reference says {v1})")
+        # second forbidden end state: open, nothing being handled, the client's next bytes are waiting in the
+        # network, and the server has stopped reading - nothing is left that could ever resume it
+        if not server_closed and not client_gone and not upgraded and obs.handler_running == 0 and not killed \
+                and str_._read_paused and ctr.out.buf and len(complete_finals) >= obs.handler_started:
+            pending = bytes(ctr.out.buf[:60]) if not isinstance(ctr.out.buf, (list, tuple)) else b""
+            kq = len(complete_finals)
+            # the circumstance is named from the last request a handler was given (what the server itself made
+            # of the bytes; the strict reading may have stopped earlier)
+            why = ""
+            if obs.seen:
+                hd = {n_.lower(): v_.lower() for n_, v_ in obs.seen[-1]["headers"]}
+                if b"upgrade" in hd.get(b"connection", b"") and hd.get(b"upgrade", b"").strip() in (b"websocket", b"tcp") \
+                        and (hd.get(b"content-length", b"0").strip() not in (b"0", b"") or b"transfer-encoding" in hd):
+                    why = ":after_declined_upgrade_with_body"
+            violate("no_orphan_request", "open_idle_but_not_reading" + why,
+                    f"connection open, every started handler has answered ({len(complete_finals)} responses), "
+                    f"{len(data) - ctr.out.delivered} request bytes wait undelivered ({pending!r}...) but the server "
+                    f"paused reading and never resumed; handler behaviours={scn['behaviours']}")
         for name, msg_, et, ex in net.fatal_errors:
             violate("loop_exception", f"fatal:{et}", f"fatal protocol error on {name}: {msg_} {ex}")
         # let keep-alive / lingering timers run out: nothing may blow up
